@@ -329,20 +329,25 @@ def reservedChannels (entries : List Entry) (pcm : Int) : E (Option Int) :=
     else pure (some (sumInt (entries.map (fun e => floorDiv (e.m.getD 0) pcm))))
   else pure none
 
+/-- `nb_wl > nb_channels_of_request` when the check applies -/
+def reservedShort (entries : List Entry) (pcm nbWl : Int) : E Bool := do
+  match ← reservedChannels entries pcm with
+  | some nb => pure (decide (nbWl > nb))
+  | none => pure false
+
 /-- one iteration of `pth_assign_spectrum` -/
 def step (pol : Policy) (s : List Oms) (r : Request) : E (List Oms × Outcome) :=
   if r.preBlocked then pure (s, Outcome.skipped) else do
-  let (nbWl, requiredM) ← slotsVsBandwidth r.pathBandwidth r.spacing r.bitRate
-  let (_, pcm) ← slotsVsBandwidth r.bitRate r.spacing r.bitRate
-  let reserved ← reservedChannels r.entries pcm
-  if (match reserved with | some nb => decide (nbWl > nb) | none => false) then
+  let nr ← slotsVsBandwidth r.pathBandwidth r.spacing r.bitRate
+  let pc ← slotsVsBandwidth r.bitRate r.spacing r.bitRate
+  if (← reservedShort r.entries pc.2 nr.1) then
     pure (s, Outcome.blocked "NOT_ENOUGH_RESERVED_SPECTRUM")
   else do
-    let (sel, remaining) ← computeNM requiredM r.entries r.pathOms s pcm pol
-    if remaining > 0 then pure (s, Outcome.blocked "NO_SPECTRUM")
+    let sr ← computeNM nr.2 r.entries r.pathOms s pc.2 pol
+    if sr.2 > 0 then pure (s, Outcome.blocked "NO_SPECTRUM")
     else do
-      let s' ← applyPath sel r.id nbWl r.pathOms s
-      pure (s', Outcome.accepted sel)
+      let s' ← applyPath sr.1 r.id nr.1 r.pathOms s
+      pure (s', Outcome.accepted sr.1)
 
 /-- `pth_assign_spectrum` over a list of requests: final state and the outcome of every request -/
 def run (pol : Policy) : List Oms → List Request → E (List Oms × List Outcome)
